@@ -6,7 +6,7 @@ import items, scen, refpeer as R
 ITEMS = ['item_dtc_pack', 'item_dtc_unpack', 'item_lamp_data', 'item_lamp_status', 'item_dm22', 'item_dm1_build', 'item_dm1_parse']
 FILES = ['theories/Base.v', 'theories/gen/DiagGen.v', 'theories/Dm1Model.v', 'proofs/CodecProofs.v', 'proofs/DiagProofs.v', 'theories/Items.v',
          'theories/gen/Codec.v', 'theories/gen/Tp21Gen.v', 'theories/gen/CaGen.v', 'theories/CodecGlue.v', 'theories/Model21.v', 'proofs/Flat.v',
-         'proofs/Tp21Seg.v', 'proofs/Tp21Resp.v', 'proofs/Tp21Orig.v', 'proofs/Net21.v', 'proofs/Net21Proofs.v', 'proofs/Net21Bam.v', 'proofs/Dm1Net.v',
+         'proofs/Tp21Seg.v', 'proofs/Tp21Resp.v', 'proofs/Tp21Orig.v', 'proofs/Net21.v', 'proofs/Net21Proofs.v', 'proofs/Net21Bam.v', 'proofs/Dm1Net.v', 'proofs/Net21Seq.v', 'proofs/Net21BamSeq.v',
          'theories/gen/Tp22Gen.v', 'theories/Model22.v', 'proofs/MpgProofs.v', 'proofs/PoolProofs.v', 'proofs/Tp22Proofs.v', 'proofs/Tp22Resp.v', 'proofs/Net22.v', 'proofs/Net22Proofs.v', 'proofs/Net22Bam.v']
 KEYS = ('pl', 'awl', 'rsl', 'mil')
 
